@@ -1529,6 +1529,10 @@ class AllConnGraph(nx.DiGraph):
                 if indices is None:
                     model._inputs._abs_set_val(node[1], tval)
                 else:
+                    if isinstance(tval, np.ndarray) and tval.size == 1:
+                        # a single value may address a single entry (e.g. indices=2): hand it on as
+                        # a 0-d value, which also broadcasts over any other selection
+                        tval = tval.reshape(())
                     model._inputs._abs_set_val(node[1], tval, idx=indices())
         else:
             srcval = src_meta.val
